@@ -1036,8 +1036,9 @@ def write_evidence(prop, mod, reg, gens, obl, extra, tier, seed, wall, solver_ms
     by_backend = {}
     for r in obl:
         by_backend[r["backend"] or "none"] = by_backend.get(r["backend"] or "none", 0) + 1
+    level = getattr(mod, "LEVEL", "proof")
     ev = {
-        "property_id": prop, "tier": tier, "seed": seed, "level": "proof", "wall_s": round(wall, 2),
+        "property_id": prop, "tier": tier, "seed": seed, "level": level, "wall_s": round(wall, 2),
         "violations": n_viol,
         "coverage": {
             "obligations": n_total, "discharged": n_dis,
@@ -1064,6 +1065,17 @@ def write_evidence(prop, mod, reg, gens, obl, extra, tier, seed, wall, solver_ms
         },
         "assumptions": list(getattr(mod, "ASSUMPTIONS", [])),
     }
+    # generic counters of the bounded stand-ins (required keys when the level is exploration; informative otherwise)
+    bs = extra.get("bounded", [])
+    if bs:
+        ev["coverage"]["evaluations"] = sum(int(b.get("evaluations", 0)) for b in bs)
+        ev["coverage"]["distinct_nontrivial"] = sum(int(b.get("distinct_inputs", 0)) for b in bs)
+        ev["coverage"]["rule"] = ("bounded stand-ins only: inputs come from each runner's generator (a corpus of adversarial "
+                                  "cases, then seeded random ones, VERIF_SEED); distinct = distinct generated inputs by their "
+                                  "JSON form; every generated input exercises the real function and is judged by the executable "
+                                  "contract / an independent decoding, so all of them count as non-trivial")
+        if level != "proof":
+            ev["coverage"]["samples"] = [s_ for b in bs for s_ in b.get("samples", [])][:6] or ev["coverage"]["samples"]
     os.makedirs(os.path.join(HERE, "evidence"), exist_ok=True)
     with open(os.path.join(HERE, "evidence", f"{prop}.json"), "w") as f:
         json.dump(ev, f, indent=1, default=str)
